@@ -153,7 +153,9 @@ def gen_hierarchy(rng, n_classes=6, n_queries=8, names=None):
         if not ok:
             continue
         for _q in range(n_queries):
-            c = rng.randrange(n_classes)
+            # receivers: mostly classes that inherit something
+            heirs = [i for i in range(n_classes) if any(member_names(h, x) for x in ancestors(h, i) if x != i)]
+            c = rng.choice(heirs) if heirs and rng.random() < 0.85 else rng.randrange(n_classes)
             anc = ancestors(h, c)
             # prefer members that are NOT in the body of the receiver's own class
             far = [a for x in anc if x != c for a in member_names(h, x)]
